@@ -73,7 +73,7 @@ pub fn run_c10(case: &Case) -> Outcome {
     let pool = &case.model;
     let mut out = Outcome::new(pool);
     let mut r = SmallRng::seed_from_u64(case.sub);
-    let cfg = Config::random(&mut r);
+    let cfg = Config::random_for_assumptions(&mut r);
     cfg.label(&mut out);
     let nsteps = r.gen_range(4..=14);
     let sub2: u64 = r.gen();
@@ -99,7 +99,9 @@ pub fn run_c10(case: &Case) -> Outcome {
                 Some(k) => Term::At(StopAt::new(Some(k), 5_000_000)),
             };
             match op {
-                0 if nvars < pool.vars.len() && !dead => {
+                0 if nvars < pool.vars.len() && !dead && sh.cuts.is_empty() => {
+                    // (after an optimisation the solver may be infeasible because of its own objective
+                    // cut; creating variables in an infeasible solver is a documented assertion)
                     let add = r.gen_range(1..=pool.vars.len() - nvars);
                     sh.model.vars.extend(pool.vars[nvars..nvars + add].iter().cloned());
                     xs.extend(new_vars(&mut solver, &sh.model, nvars, false));
@@ -470,7 +472,7 @@ pub fn run_c11(case: &Case) -> Outcome {
     let m = &case.model;
     let mut out = Outcome::new(m);
     let mut r = SmallRng::seed_from_u64(case.sub);
-    let cfg = Config::random(&mut r);
+    let cfg = Config::random_progressing(&mut r);
     cfg.label(&mut out);
     let entry = case.extra.get("entry").as_i64();
     let max_points = case.extra.get("max_points").as_i64().max(10) as u64;
@@ -721,10 +723,11 @@ pub fn mag_class(m: &Model) -> Vec<String> {
 pub fn run_c16(case: &Case) -> Outcome {
     let m = &case.model;
     let mut out = Outcome::new(m);
-    out.classes.retain(|c| c.starts_with("kind.") || c.starts_with("implied.") || c.starts_with("reified.") || c.starts_with("negated."));
+    out.classes.retain(|c| c.starts_with("kind.") || c.starts_with("implied.") || c.starts_with("reified.") || c.starts_with("negated.") || c.ends_with("repeated_var"));
     for c in mag_class(m) {
         out.class(c);
     }
+    out.class(if case.extra.get("regime").as_str() == "extreme" { "mag.regime.extreme" } else { "mag.regime.below-2^30" });
     let mut r = SmallRng::seed_from_u64(case.sub);
     let seed = r.gen();
     let cfg = Config { opts: OptSpec::default_with_seed(seed), br: BrSpec::Default };
